@@ -64,7 +64,7 @@ class VChan:
 def scenario(n_clients, with_bg, answer_order, chooser, sync_timeout=2.0, timeouts=None, eof_after=None):
     """returns dict(result per client, events, lateness per client, deadlock, clock advances)"""
     codes = [P.Connection.serve.__code__, P.Connection._dispatch.__code__, P.Connection._seq_request_callback.__code__,
-             P.Connection._async_request.__code__, P.Connection._get_seq_id.__code__,
+             P.Connection._async_request.__code__, P.Connection._get_seq_id.__code__, P.Connection._send.__code__,
              A.AsyncResult.wait.__code__, A.AsyncResult.__call__.__code__, H.BgServingThread._bg_server.__code__]
     S = VSched(codes)
     events = []
@@ -141,7 +141,12 @@ def scenario(n_clients, with_bg, answer_order, chooser, sync_timeout=2.0, timeou
                 res._seq_for_harness = None
                 out["res_obj"][i] = res
                 # the statements of Connection.async_request, with our own result object so that it can be identified later
-                conn._async_request(consts.HANDLE_PING, (payload,), res)
+                try:
+                    conn._async_request(consts.HANDLE_PING, (payload,), res)
+                except Exception as e:          # e.g. the connection ended before this request could be sent
+                    out["results"][i] = "EXC:" + type(e).__name__
+                    out["return_time"][i] = S.now
+                    return
                 res.set_expiry(sync_timeout if timeouts is None else timeouts[i])
                 try:
                     out["results"][i] = res.value
@@ -175,7 +180,7 @@ def scenario(n_clients, with_bg, answer_order, chooser, sync_timeout=2.0, timeou
             while len(answered) < n_clients:
                 if eof_after is not None and len(answered) >= eof_after:
                     # the peer dies: wait until every request has been sent, then end the stream
-                    S.block(lambda: sum(1 for d in ch.out if brine.load(d)[0] == consts.MSG_REQUEST and brine.load(d)[2][0] == consts.HANDLE_PING) >= n_clients,
+                    S.block(lambda: sum(1 for d in ch.out if brine.load(d)[0] == consts.MSG_REQUEST and brine.load(d)[2][0] == consts.HANDLE_PING) + sum(1 for i in range(n_clients) if i in out["return_time"]) >= n_clients,
                             S.now + 10 * (sync_timeout or 2.0), why="peer")
                     ch.eof = True
                     break
